@@ -32,7 +32,7 @@ RULE = ("C05's program generator (strings, tokenizer+builder with per-stream fla
         "or zero divisor, and >=1 round with all inputs present")
 OPS = ["+", "-", "*", "/", "min", "max"]
 REQUIRED_BUCKETS = (["enc:none", "enc:nan", "enc:inf", "enc:-inf", "naz-formula", "naz-stream", "naz-off",
-                     "division-by-zero", "consumption-of-missing", "production-of-missing", "expected-None",
+                     "division-by-zero", "overflow-expected-None", "consumption-of-missing", "production-of-missing", "expected-None",
                      "expected-value-despite-missing(zeros)"]
                     + [f"missing-{side}-of:{op}" for op in OPS for side in ("left", "right")])
 REQUIRED_COUNTERS = ["rounds_checked", "programs_run"]
@@ -54,6 +54,10 @@ def gen(rng: Any, tier: str, i: int) -> Any:
     prog["missing"] = [[(rng.choice(["none", "nan", "inf", "-inf"]) if rng.random() < p else None) for _ in range(n)]
                        for _ in prog["vectors"]]
     prog["missing"][0] = [None] * n  # at least one fully valid round
+    # rounds with huge inputs: products / sums overflow to +-inf, which must be emitted as None
+    for k in range(1, len(prog["vectors"])):
+        if rng.random() < 0.12:
+            prog["vectors"][k] = [rng.choice([1e200, -1e200, 1e160, 3e307, 2.0]) for _ in range(n)]
     if prog["mode"] == "builder":
         prog["leaf_naz"] = [rng.random() < 0.4 for _ in range(n)]
         prog["naz"] = False
@@ -63,6 +67,13 @@ def gen(rng: Any, tier: str, i: int) -> Any:
     else:
         prog["naz"] = rng.random() < 0.4
     return prog
+
+
+def _flt(x: F) -> float:
+    try:
+        return float(x)
+    except OverflowError:
+        return float("inf") if x > 0 else float("-inf")
 
 
 def _missing_positions(a: Any, vals: list[Any], out: set[str]) -> Any:
@@ -127,7 +138,7 @@ def check(prog: dict[str, Any], rec: Any) -> None:
         rec.count("rounds_checked")
         w = {"program": prog.get("src") or c05.fm_repr(ast), "engine_formula": out.get("formula_str"),
              "mode": prog["mode"], "naz": prog.get("naz"), "leaf_naz": prog.get("leaf_naz"), "round": k,
-             "inputs": vec, "missing": miss, "expected": "None" if ref is fm.BOT else float(ref[0]),
+             "inputs": vec, "missing": miss, "expected": "None" if ref is fm.BOT else _flt(ref[0]),
              "outputs": [(str(t), v) for t, v in got], "division_by_zero": dz,
              "missing_positions": sorted(pos)}
         if len(got) != 1:
@@ -143,6 +154,15 @@ def check(prog: dict[str, Any], rec: Any) -> None:
                 rec.violation("value-emitted-although-input-missing-or-result-undefined", {**w, "got": val})
         else:
             exp, bound = ref
+            big = fm.max_abs(ast, vals)
+            if abs(exp) > F(18, 10) * F(10) ** 308:
+                rec.bucket("overflow-expected-None")
+                if val is not None:
+                    rec.violation("non-finite-result-emitted-as-a-value", {**w, "got": val})
+                continue
+            if big > F(10) ** 300:
+                rec.count("rounds_with_possible_intermediate_overflow(skipped)")
+                continue
             if any_missing:
                 rec.bucket("expected-value-despite-missing(zeros)")
             if val is None:
@@ -150,7 +170,7 @@ def check(prog: dict[str, Any], rec: Any) -> None:
                 if abs(exp) < F(10) ** 300:
                     rec.violation("None-emitted-although-all-needed-inputs-present", w)
             elif abs(F(val) - exp) > 4 * bound + F(1, 10 ** 300):
-                rec.violation("value-differs-from-expression", {**w, "got": val, "error_bound": float(bound)})
+                rec.violation("value-differs-from-expression", {**w, "got": val, "error_bound": _flt(bound)})
         if len(shown) < 3 and (any_missing or dz):
             shown.append({"inputs": vec, "missing": miss, "expected": w["expected"], "got": val})
     rec.nontrivial(saw_missing and saw_full)
